@@ -235,6 +235,22 @@ theorem reachableR_runG (S : Sys σ) {ok : σ → Tid → Prop} (okb : σ → Ti
       · exact ih h
     · exact ih h
 
+/-- `reachableR_runG` when the decidable guard is only sound in states satisfying an invariant `I`. -/
+theorem reachableR_runG_inv (S : Sys σ) {ok : σ → Tid → Prop} (okb : σ → Tid → Bool) (I : σ → Prop)
+    (hIstep : ∀ s t s', I s → S.step s t = some s' → I s')
+    (hok : ∀ s t, I s → okb s t = true → ok s t) {s : σ} (h : ReachableR S ok s) (hI : I s) (ts : List Tid) :
+    ReachableR S ok (runG S okb s ts) := by
+  induction ts generalizing s with
+  | nil => exact h
+  | cons t ts ih =>
+    simp only [runG]
+    split
+    · next hb =>
+      split
+      · next s1 h1 => exact ih (ReachableR.step h (hok _ _ hI hb) h1) (hIstep _ _ _ hI h1)
+      · exact ih h hI
+    · exact ih h hI
+
 /-- Invariant rule. -/
 theorem invariant {S : Sys σ} (I : σ → Prop) (h0 : I S.init)
     (hstep : ∀ s t s', I s → S.step s t = some s' → I s') : ∀ s, Reachable S s → I s := by
